@@ -71,13 +71,18 @@ End Sys.
 Record swr_exp := {
   xp_setting : option Z;        (* WithSWRTimeout argument; None = option not given *)
   xp_latency : option Z;        (* origin latency; None = never answers *)
-  xp_cancel : option Z          (* the caller's context is cancelled at this time (negative: before the call) *)
+  xp_cancel : option Z;         (* the caller's context is cancelled at this time (negative: before the call) *)
+  xp_deadline : option Z        (* the caller's context has this deadline (positive), if any *)
 }.
 Definition xp_timeout (x : swr_exp) : Z :=
   effective_swr_timeout (match xp_setting x with Some t => t | None => 0 end).
 (* when the context of the background request is done *)
+(* the deadline of the context of the background request: the timeout, or the caller's own deadline when
+   that is earlier (context.WithTimeout never extends a deadline) *)
+Definition xp_bg_deadline (x : swr_exp) : Z :=
+  match xp_deadline x with Some d => Z.min (xp_timeout x) (Z.max d 0) | None => xp_timeout x end.
 Definition xp_cut (x : swr_exp) : Z :=
-  match xp_cancel x with Some c => Z.min (xp_timeout x) (Z.max c 0) | None => xp_timeout x end.
+  match xp_cancel x with Some c => Z.min (xp_bg_deadline x) (Z.max c 0) | None => xp_bg_deadline x end.
 Definition xp_request_end (x : swr_exp) : Z :=
   match xp_latency x with Some d => Z.min d (xp_cut x) | None => xp_cut x end.
 (* the request ends in the context's error: the context was done before the origin answered, or already
@@ -92,5 +97,5 @@ Record swr_obs := {
   so_fg_latency : Z; so_bg_calls : Z; so_deadline : Z; so_request_end : Z; so_cancelled : bool; so_goroutines_left : Z
 }.
 Definition swr_predict (x : swr_exp) : swr_obs :=
-  {| so_fg_latency := 0; so_bg_calls := 1; so_deadline := xp_timeout x; so_request_end := xp_request_end x;
+  {| so_fg_latency := 0; so_bg_calls := 1; so_deadline := xp_bg_deadline x; so_request_end := xp_request_end x;
      so_cancelled := xp_cancelled x; so_goroutines_left := 0 |}.
